@@ -18,5 +18,14 @@ func dbg(c *Ctx) {
 			continue
 		}
 		fmt.Printf("%s\n  read : %s\n  write: %s\n", s, tableString(c.codecTable(fn, true)), tableString(c.codecTable(fn, false)))
+		if os.Getenv("VCHECK_SSA") != "" {
+			fn.WriteTo(os.Stdout)
+		}
+		if rl, why := c.wireLeaves(fn, true); true {
+			fmt.Printf("  wire read : %s (%s)\n", leavesString(rl), why)
+		}
+		if wl, why := c.wireLeaves(fn, false); true {
+			fmt.Printf("  wire write: %s (%s)\n", leavesString(wl), why)
+		}
 	}
 }
